@@ -914,3 +914,750 @@ Proof.
       * eapply Ext_trans; [exact E|]. eapply Ext_trans; [exact A'|apply unref_internal_ext].
       * rewrite a11. subst s2. unfold upd_node. sred. exact D.
 Qed.
+
+(* ---------------------------------------------------------------- "nothing comes back" frame *)
+
+(* steps that only drop references / finalise: reference counts do not grow, an absent value stays
+   absent, an empty delFunc list stays empty *)
+Definition DecN (l l' : list node) : Prop :=
+  forall m', In m' l' -> exists m, In m l /\ n_id m = n_id m' /\ (n_ref m' <= n_ref m)%Z /\
+     (n_val m = None -> n_val m' = None) /\ (n_dels m = [] -> n_dels m' = []).
+Definition Dec (s s' : state) : Prop := DecN (s_nodes s) (s_nodes s').
+
+Lemma DecN_refl l : DecN l l.
+Proof. intros m Hm. exists m. repeat split; auto. lia. Qed.
+Lemma DecN_trans a b c : DecN a b -> DecN b c -> DecN a c.
+Proof.
+  intros A B m'' Hm''. destruct (B m'' Hm'') as (m' & Hm' & i' & r' & v' & d').
+  destruct (A m' Hm') as (m & Hm & i & r & v & d). exists m. repeat split; auto; try congruence. lia.
+Qed.
+Lemma DecN_upd l x f : pres f ->
+  (forall m, (n_ref (f m) <= n_ref m)%Z /\ (n_val m = None -> n_val (f m) = None) /\ (n_dels m = [] -> n_dels (f m) = [])) ->
+  DecN l (upd_id x f l).
+Proof.
+  intros Hf H m' Hm'. apply in_upd in Hm'. destruct Hm' as (m & Hm & ->). exists m. split; auto.
+  destruct (n_id m =? x); [|repeat split; auto; lia]. destruct (Hf m) as (i & _). destruct (H m) as (a & b & c). auto.
+Qed.
+Lemma DecN_remove l x : DecN l (remove_id x l).
+Proof. intros m' Hm'. apply in_remove in Hm'. exists m'. repeat split; try tauto. lia. Qed.
+
+Lemma cache_delete_dec ns key s : Dec s (cache_delete ns key s).
+Proof.
+  unfold cache_delete, Dec. destruct (find_key ns key (s_nodes s)); [|apply DecN_refl].
+  destruct (n_ref n =? 0)%Z; [|apply DecN_refl]. sred. apply DecN_remove.
+Qed.
+Lemma call_finalizer_dec f x s : Dec s (call_finalizer f x s).
+Proof.
+  unfold call_finalizer, Dec. destruct (find_id x (s_nodes s)); [|apply DecN_refl].
+  unfold upd_node. sred. apply DecN_upd; [intro m; repeat split|]. intro m. cbn. repeat split; auto. lia.
+Qed.
+Lemma ref_dec_dec x s n :
+  NoDup (ids (s_nodes s)) -> find_id x (s_nodes s) = Some n -> Dec s (upd_node x (nd_ref (n_ref n - 1)) s).
+Proof.
+  intros Hnd F. destruct (find_id_some _ _ _ F) as [Hn Hx].
+  unfold Dec, upd_node. sred. intros m' Hm'. apply in_upd in Hm'. destruct Hm' as (m & Hm & ->). exists m. split; auto.
+  destruct (N.eqb_spec (n_id m) x) as [e|ne]; [|repeat split; auto; lia].
+  assert (m = n) as -> by (eapply same_id_eq; eauto; congruence). cbn. repeat split; auto. lia.
+Qed.
+
+Lemma unref_external_dec x s : NoDup (ids (s_nodes s)) -> Dec s (unref_external x s).
+Proof.
+  intro Hnd. unfold unref_external. destruct (find_id x (s_nodes s)) as [n|] eqn:F; [|apply DecN_refl].
+  pose proof (ref_dec_dec x s n Hnd F) as A.
+  destruct (n_ref n - 1 =? 0)%Z; [|exact A]. destruct (s_closed s).
+  - eapply DecN_trans; [exact A|apply call_finalizer_dec].
+  - eapply DecN_trans; [exact A|apply cache_delete_dec].
+Qed.
+
+Lemma lru_evict_dec x s : NoDup (ids (s_nodes s)) -> Dec s (lru_evict x s).
+Proof.
+  intro Hnd. unfold lru_evict. destruct (find_id x (s_nodes s)) as [n|] eqn:F; [|apply DecN_refl].
+  destruct (n_lru n); try apply DecN_refl.
+  eapply DecN_trans; [|apply unref_external_dec].
+  - unfold Dec, order_remove. destruct (in_order x (s_order s)); unfold upd_node; sred;
+      (apply DecN_upd; [auto with cache|]; intro m; cbn; repeat split; auto; lia).
+  - unfold order_remove. destruct (in_order x (s_order s)); unfold upd_node; sred; rewrite ids_upd; auto with cache.
+Qed.
+
+(* the property of force-closed states that Release and SetCapacity must keep *)
+Definition all_dead (l : list node) : Prop :=
+  forall n, In n l -> (n_ref n <= 0)%Z /\ n_val n = None /\ n_dels n = [].
+
+Lemma all_dead_dec l l' : DecN l l' -> all_dead l -> all_dead l'.
+Proof.
+  intros D A m' Hm'. destruct (D m' Hm') as (m & Hm & _ & r & v & d). destruct (A m Hm) as (a & b & c).
+  repeat split; auto. lia.
+Qed.
+
+Lemma handle_release_ok s h :
+  Rest s -> Rest (handle_release h s) /\ Ext s (handle_release h s) /\
+            s_next_did (handle_release h s) = s_next_did s.
+Proof.
+  intros (H & Hcap & Hcr). unfold handle_release.
+  destruct (find (fun p => fst p =? h) (s_handles s)) as [[h' x]|] eqn:F.
+  2: { split; [split; auto|]. split; [apply ExtN_refl|reflexivity]. }
+  destruct (find_handle_some _ _ _ F) as [Hin Hh]. cbn in Hh. subst h'. cbn [snd].
+  set (s0 := set_handles _ s).
+  pose proof H as [HS HR HL HP]. unfold InvS, InvR, InvL in *.
+  assert (Inv (padd x 1 p0) s0) as H0.
+  { subst s0. split; unfold InvS, InvR, InvL; sred; auto. apply (RInv_hdel _ _ _ _ _ _ _ _ h x HR Hin). }
+  assert (s_forced s0 = true -> forall n, In n (s_nodes s0) -> n_id n = x -> (n_ref n <= 0)%Z) as Hfo.
+  { subst s0. sred. intros Hf n Hn _. assert (s_closed s = true) as Hc by (apply (ri_fc _ _ _ _ _ _ _ _ HR Hf)).
+    destruct (Hcr Hc) as (_ & D). apply (D Hf n Hn). }
+  pose proof (unref_external_ok p0 s0 x H0 ltac:(unfold p0; lia) Hfo) as H1.
+  destruct (unref_external_same x s0) as (a1 & a2 & a3 & a4 & a5 & a6 & a7 & a8 & a9 & a10 & a11).
+  split; [split; [exact H1|split]|split].
+  - eapply capok_same; [exact a2|exact a1|]. subst s0. unfold CapOk in *. sred. exact Hcap.
+  - intro Hc. rewrite a4 in Hc. subst s0. sred. destruct (Hcr Hc) as (O & D). split; [congruence|].
+    intros Hf. rewrite a5 in Hf. sred. eapply all_dead_dec; [apply unref_external_dec|exact (D Hf)].
+    sred. apply (si_ids _ _ _ _ HS).
+  - eapply Ext_trans; [|apply unref_external_ext]. subst s0. unfold Ext. sred. apply ExtN_refl.
+  - rewrite a11. reflexivity.
+Qed.
+
+Lemma bucket_get_next_did ns key z s :
+  bucket_get ns key true (set_next_did z s) =
+  (set_next_did z (fst (bucket_get ns key true s)), snd (bucket_get ns key true s)).
+Proof. unfold bucket_get. sred. destruct (find_key ns key (s_nodes s)); reflexivity. Qed.
+
+Lemma delreg_ok p s x n :
+  Inv p s -> s_closed s = false -> In n (s_nodes s) -> n_id n = x ->
+  let s' := emit (EvDelReg (s_next_did s) x)
+              (upd_node x (nd_dels (n_dels n ++ [s_next_did s])) (set_next_did (s_next_did s + 1) s)) in
+  Inv p s' /\ Ext s s'.
+Proof.
+  intros H Hc Hn Hx. pose proof (forced_false_of_open _ _ H Hc) as Hfo.
+  pose proof H as [HS HR HL HP]. unfold InvS, InvR, InvL in *. cbv zeta. split.
+  - split; unfold InvS, InvR, InvL; unfold upd_node; sred; auto.
+    + eapply (SInv_upd _ _ _ _ x _ n); eauto with cache; try reflexivity.
+      intro Hr. cbn. apply (si_resval _ _ _ _ HS n Hn Hr).
+    + eapply (RInv_upd p p _ _ _ _ _ _ _ _ x _ n);
+        [exact HR|apply (si_ids _ _ _ _ HS)|exact Hn|exact Hx|auto with cache|apply (ri_p _ _ _ _ _ _ _ _ HR)|auto| | | | | ].
+      * intros _. rewrite <- Hx. apply (ri_ref _ _ _ _ _ _ _ _ HR Hfo n Hn).
+      * intros _ _. cbn. apply (ri_pos _ _ _ _ _ _ _ _ HR Hfo n Hn (or_introl Hc)).
+      * intros _ Hh. cbn. apply (ri_hval _ _ _ _ _ _ _ _ HR Hfo n Hn). now rewrite Hx.
+      * intros _. unfold scontrib. cbn. lia.
+      * intros _. cbn. apply (ri_size0 _ _ _ _ _ _ _ _ HR Hc n Hn).
+    + rewrite Hc in *. apply LInv_delreg; auto. apply (si_ids _ _ _ _ HS).
+      rewrite <- Hx. apply (si_fresh _ _ _ _ HS n Hn).
+  - unfold Ext, upd_node. sred. apply ExtN_upd; [auto with cache|]. intros m _ _. split; auto.
+Qed.
+
+Lemma delete_tail s2 x n2 :
+  Inv (padd x 1 p0) s2 -> CapOk s2 -> s_closed s2 = false -> In n2 (s_nodes s2) -> n_id n2 = x ->
+  let s4 := unref_internal x (if s_cacher s2 then lru_ban x s2 else s2) in
+  Inv p0 s4 /\ CapOk s4 /\ s_closed s4 = false /\ Ext s2 s4.
+Proof.
+  intros H2 Hcap2 Hc2 Hn2 Hx2. cbv zeta.
+  set (s3 := if s_cacher s2 then lru_ban x s2 else s2).
+  assert (Inv (padd x 1 p0) s3 /\ Ext s2 s3 /\ same_misc s2 s3 /\ CapOk s3) as (H3 & E3 & M3 & Hcap3).
+  { subst s3. destruct (s_cacher s2).
+    - destruct (lru_ban_ok _ s2 x n2 H2 Hc2 Hn2 Hx2) as (A & A' & A''). split; auto. split; [eapply lru_ban_ext; eauto|auto].
+    - split; auto. split; [apply ExtN_refl|]. split; [apply same_misc_refl|auto]. }
+  pose proof M3 as (j1 & j2 & j3 & j4 & j5 & j6 & j7 & j8).
+  assert (s_closed s3 = false) as Hc3 by congruence.
+  destruct (unref_internal_same x s3) as (a1 & a2 & a3 & a4 & a5 & a6 & a7 & a8 & a9 & a10 & a11).
+  split; [|split; [|split]].
+  - apply unref_internal_ok; auto. unfold p0. lia.
+  - eapply capok_same; eauto.
+  - congruence.
+  - eapply Ext_trans; [exact E3|apply unref_internal_ext].
+Qed.
+
+Lemma cache_delete_op_ok s ns key wd :
+  Rest s -> Rest (fst (cache_delete_op ns key wd s)) /\ Ext s (fst (cache_delete_op ns key wd s)).
+Proof.
+  intros (H & Hcap & Hcr). unfold cache_delete_op. destruct (s_closed s) eqn:Hc.
+  { cbn. split; [split; auto|apply ExtN_refl]. }
+  assert (forall s2, Inv p0 s2 -> CapOk s2 -> s_closed s2 = false -> Ext s s2 -> Rest s2 /\ Ext s s2) as Fin.
+  { intros s2 A B' C' D'. split; [split; [auto|split; [auto|now apply closedrest_open]]|]. auto. }
+  destruct (bucket_get ns key true s) as [s1 r] eqn:B.
+  destruct (bucket_get_ok p0 s _ _ _ _ _ H Hc B) as (M & U & O & E & D & R).
+  pose proof M as (m1 & m2 & m3 & m4 & m5 & m6 & m7 & m8).
+  assert (s_closed s1 = false) as Hc1 by congruence.
+  assert (CapOk s1) as Hcap1 by (eapply capok_same; eauto).
+  destruct wd.
+  - rewrite bucket_get_next_did, B. cbn [fst snd]. destruct r as [x|].
+    + destruct R as (H1 & n & Hn & Hx & _).
+      pose proof (inv_s _ _ H1) as HS1. unfold InvS in HS1. sred.
+      rewrite <- Hx, (find_id_in _ n (si_ids _ _ _ _ HS1) Hn), Hx.
+      destruct (delreg_ok _ s1 x n H1 Hc1 Hn Hx) as (A & A'). cbv zeta in A, A'. rewrite D in A, A'.
+      match type of A with Inv _ ?z => set (s2 := z) in * end.
+      assert (CapOk s2) as Q1 by (eapply capok_same; [| |exact Hcap1]; subst s2; unfold upd_node; reflexivity).
+      assert (s_closed s2 = false) as Q2 by (subst s2; unfold upd_node; sred; exact Hc1).
+      assert (In (nd_dels (n_dels n ++ [s_next_did s]) n) (s_nodes s2)) as Q3
+        by (subst s2; unfold upd_node; sred; apply in_upd_same; auto).
+      destruct (delete_tail s2 x (nd_dels (n_dels n ++ [s_next_did s]) n) A Q1 Q2 Q3 Hx) as (P1 & P2 & P3 & P4).
+      cbn [fst]. apply Fin; auto. eapply Ext_trans; [exact E|]. eapply Ext_trans; [exact A'|exact P4].
+    + subst s1. cbn [fst]. apply Fin.
+      * pose proof H as [HS HR HL HP]. unfold InvS, InvR, InvL in *. split; unfold InvS, InvR, InvL; sred; auto.
+        now apply LInv_delrun_now.
+      * unfold CapOk in *. sred. exact Hcap.
+      * sred. exact Hc.
+      * unfold Ext. sred. apply ExtN_refl.
+  - rewrite B. destruct r as [x|].
+    + destruct R as (H1 & n & Hn & Hx & _).
+      destruct (delete_tail s1 x n) as (P1 & P2 & P3 & P4); auto.
+      cbn [fst]. apply Fin; auto. eapply Ext_trans; [exact E|exact P4].
+    + subst s1. cbn [fst]. apply Fin; auto; apply ExtN_refl.
+Qed.
+
+Lemma cache_evict_op_ok s ns key :
+  Rest s -> Rest (fst (cache_evict_op ns key s)) /\ Ext s (fst (cache_evict_op ns key s)).
+Proof.
+  intros (H & Hcap & Hcr). unfold cache_evict_op. destruct (s_closed s) eqn:Hc.
+  { cbn. split; [split; auto|apply ExtN_refl]. }
+  assert (forall s2, Inv p0 s2 -> CapOk s2 -> s_closed s2 = false -> Ext s s2 -> Rest s2 /\ Ext s s2) as Fin.
+  { intros s2 A B' C' D'. split; [split; [auto|split; [auto|now apply closedrest_open]]|]. auto. }
+  destruct (bucket_get ns key true s) as [s1 r] eqn:B.
+  destruct (bucket_get_ok p0 s _ _ _ _ _ H Hc B) as (M & U & O & E & D & R).
+  pose proof M as (m1 & m2 & m3 & m4 & m5 & m6 & m7 & m8).
+  assert (s_closed s1 = false) as Hc1 by congruence.
+  assert (CapOk s1) as Hcap1 by (eapply capok_same; eauto).
+  destruct r as [x|]; cbn [fst].
+  2: { subst s1. apply Fin; auto; apply ExtN_refl. }
+  destruct R as (H1 & n & Hn & Hx & _).
+  pose proof (forced_false_of_open _ _ H1 Hc1) as Hfo1.
+  set (s2 := if s_cacher s1 then lru_evict x s1 else s1).
+  assert (Inv (padd x 1 p0) s2 /\ Ext s1 s2 /\ same_misc s1 s2 /\ CapOk s2) as (H2 & E2 & M2 & Hcap2).
+  { subst s2. destruct (s_cacher s1).
+    - destruct (lru_evict_ok _ s1 x H1) as (A & A' & A'' & _); [intro; congruence|].
+      split; auto. split; [eapply lru_evict_ext; eauto|auto].
+    - split; auto. split; [apply ExtN_refl|]. split; [apply same_misc_refl|auto]. }
+  pose proof M2 as (j1 & j2 & j3 & j4 & j5 & j6 & j7 & j8).
+  assert (s_closed s2 = false) as Hc2 by congruence.
+  destruct (unref_internal_same x s2) as (a1 & a2 & a3 & a4 & a5 & a6 & a7 & a8 & a9 & a10 & a11).
+  apply Fin.
+  - apply unref_internal_ok; auto. unfold p0. lia.
+  - eapply capok_same; eauto.
+  - congruence.
+  - eapply Ext_trans; [exact E|]. eapply Ext_trans; [exact E2|apply unref_internal_ext].
+Qed.
+
+Lemma evict_ids_ok l : forall s,
+  Inv p0 s -> CapOk s -> s_forced s = false ->
+  Inv p0 (evict_ids l s) /\ CapOk (evict_ids l s) /\ same_misc s (evict_ids l s) /\ Ext s (evict_ids l s) /\
+  (forall y, In y (s_order (evict_ids l s)) -> In y (s_order s) /\ ~ In y l).
+Proof.
+  unfold evict_ids. induction l as [|x l IH]; intros s H Hcap Hf; cbn [fold_left].
+  - split; auto. split; auto. split; [apply same_misc_refl|]. split; [apply ExtN_refl|]. intros y Hy. split; auto.
+  - destruct (lru_evict_ok _ s x H) as (A & A' & A'' & A3); [intro; congruence|].
+    pose proof A' as (j1 & j2 & j3 & j4 & j5 & j6 & j7 & j8).
+    destruct (IH (lru_evict x s) A (A'' Hcap) ltac:(congruence)) as (B1 & B2 & B3 & B4 & B5).
+    split; auto. split; auto. split; [eapply same_misc_trans; eauto|].
+    split; [eapply Ext_trans; [eapply lru_evict_ext; eauto|exact B4]|].
+    intros y Hy. destruct (B5 y Hy) as [C1 C2]. rewrite A3 in C1. apply in_remove_order in C1.
+    split; [tauto|]. intros [e|e]; [subst; tauto|tauto].
+Qed.
+
+Lemma cache_evict_ns_ok s ns : Rest s -> Rest (cache_evict_ns ns s) /\ Ext s (cache_evict_ns ns s).
+Proof.
+  intros (H & Hcap & Hcr). unfold cache_evict_ns. destruct (s_closed s) eqn:Hc.
+  { split; [split; auto|apply ExtN_refl]. }
+  destruct (s_cacher s); [|split; [split; auto|apply ExtN_refl]].
+  destruct (evict_ids_ok (ids_of_ns ns (s_nodes s)) s H Hcap (forced_false_of_open _ _ H Hc)) as (A & B & C & D & _).
+  split; auto. split; auto. split; auto. apply closedrest_open. destruct C as (_ & e & _). congruence.
+Qed.
+
+Lemma cache_evict_all_ok s : Rest s -> Rest (cache_evict_all s) /\ Ext s (cache_evict_all s).
+Proof.
+  intros (H & Hcap & Hcr). unfold cache_evict_all. destruct (s_closed s) eqn:Hc.
+  { split; [split; auto|apply ExtN_refl]. }
+  destruct (s_cacher s); [|split; [split; auto|apply ExtN_refl]].
+  destruct (evict_ids_ok (map n_id (s_nodes s)) s H Hcap (forced_false_of_open _ _ H Hc)) as (A & B & C & D & _).
+  split; auto. split; auto. split; auto. apply closedrest_open. destruct C as (_ & e & _). congruence.
+Qed.
+
+Lemma used_zero_of_empty_order p s : Inv p s -> s_order s = [] -> s_used s = 0%Z.
+Proof.
+  intros H Ho. pose proof (inv_s _ _ H) as HS. unfold InvS in HS.
+  rewrite (si_used _ _ _ _ HS). apply nsum_zero. intros n Hn. unfold ucontrib.
+  destruct (resident n) eqn:R; auto. exfalso.
+  assert (In (n_id n) (s_order s)) as Hin by (apply (si_ord _ _ _ _ HS); eauto). rewrite Ho in Hin. destruct Hin.
+Qed.
+
+Lemma cache_set_capacity_ok s c : Rest s -> Rest (cache_set_capacity c s) /\ Ext s (cache_set_capacity c s).
+Proof.
+  intros (H & Hcap & Hcr). unfold cache_set_capacity.
+  destruct (s_cacher s); [|split; [split; auto|apply ExtN_refl]].
+  destruct (s_closed s) eqn:Hc.
+  - (* closed: nothing is linked, the loop does not run *)
+    destruct (Hcr Hc) as (Ho & D). pose proof (used_zero_of_empty_order _ _ H Ho) as Hu.
+    assert (lru_set_capacity c s = set_cap c s) as ->.
+    { unfold lru_set_capacity, run_evict_loop. sred. rewrite Ho. cbn [evict_loop]. sred. rewrite Hu.
+      assert ((Z.of_N c <? 0)%Z = false) as -> by (apply Z.ltb_ge; lia). reflexivity. }
+    split; [|unfold Ext; sred; apply ExtN_refl].
+    split; [destruct H; split; auto|]. split.
+    + unfold CapOk. sred. rewrite Hu. lia.
+    + intro Hc'. sred. auto.
+  - pose proof (forced_false_of_open _ _ H Hc) as Hf.
+    destruct (lru_set_capacity_ok p0 s c H Hf) as (A & B & C).
+    split.
+    + split; auto. split; auto. apply closedrest_open. destruct C as (_ & e & _). sred. congruence.
+    + unfold lru_set_capacity, run_evict_loop.
+      destruct (evict_loop (s_order (set_cap c s)) (set_cap c s)) as [s1 ev] eqn:E.
+      assert (Inv p0 (set_cap c s)) as H' by (destruct H; split; auto).
+      eapply Ext_trans; [|apply release_all_ext].
+      eapply Ext_trans; [|apply (evict_loop_ext _ _ _ _ _ H' eq_refl E)]. unfold Ext. sred. apply ExtN_refl.
+Qed.
+
+(* ---------------------------------------------------------------- Close *)
+
+Definition dead (n : node) : Prop := (n_ref n <= 0)%Z /\ n_val n = None /\ n_dels n = [].
+
+Lemma set_closed_ok s force :
+  Inv p0 s -> s_closed s = false -> Inv p0 (set_closed true force s).
+Proof.
+  intros H Hc. pose proof (forced_false_of_open _ _ H Hc) as Hf.
+  destruct H as [HS HR HL HP]. unfold InvS, InvR, InvL in *.
+  split; unfold InvS, InvR, InvL; sred; auto.
+  - rewrite Hc, Hf in HR. now apply RInv_close.
+  - rewrite Hc in HL. now apply LInv_close.
+Qed.
+
+Lemma close_node_false_ok s x :
+  Inv p0 s -> CapOk s -> s_forced s = false ->
+  Inv p0 (close_node false s x) /\ CapOk (close_node false s x) /\ same_misc s (close_node false s x) /\
+  Ext s (close_node false s x) /\
+  (s_cacher s = true -> s_order (close_node false s x) = remove_order x (s_order s)).
+Proof.
+  intros H Hcap Hf. unfold close_node. destruct (s_cacher s).
+  - destruct (lru_evict_ok _ s x H) as (A & A' & A'' & A3); [intro; congruence|].
+    split; auto. split; auto. split; auto. split; [eapply lru_evict_ext; eauto|auto].
+  - split; auto. split; auto. split; [apply same_misc_refl|]. split; [apply ExtN_refl|discriminate].
+Qed.
+
+Definition NoCacher (s : state) : Prop := s_cacher s = false -> s_order s = [].
+
+Lemma upd_absent x f l : ~ In x (ids l) -> upd_id x f l = l.
+Proof.
+  intro F. unfold upd_id. rewrite <- (map_id l) at 2. apply map_ext_in.
+  intros a Ha. destruct (N.eqb_spec (n_id a) x) as [e|ne]; auto. exfalso. apply F. rewrite <- e. now apply in_ids.
+Qed.
+
+Lemma close_node_true_ok s x :
+  Inv p0 s -> CapOk s -> s_forced s = true -> NoCacher s ->
+  Inv p0 (close_node true s x) /\ CapOk (close_node true s x) /\ same_misc s (close_node true s x) /\
+  Ext s (close_node true s x) /\
+  (forall y, In y (s_order (close_node true s x)) -> In y (s_order s) /\ y <> x) /\
+  (forall m', In m' (s_nodes (close_node true s x)) ->
+      (n_id m' = x /\ dead m') \/
+      (n_id m' <> x /\ exists m, In m (s_nodes s) /\ n_id m = n_id m' /\ (dead m -> dead m'))).
+Proof.
+  intros H Hcap Hf Hnc. pose proof H as [HS HR HL HP]. unfold InvS, InvR, InvL in *.
+  assert (s_closed s = true) as Hc by (apply (ri_fc _ _ _ _ _ _ _ _ HR Hf)).
+  unfold close_node.
+  (* 1. ref := 0 *)
+  set (s1 := upd_node x (nd_ref 0%Z) s).
+  assert (Inv p0 s1) as H1.
+  { subst s1. destruct (find_id x (s_nodes s)) as [n|] eqn:F.
+    - destruct (find_id_some _ _ _ F) as [Hn Hx].
+      split; unfold InvS, InvR, InvL; unfold upd_node; sred; auto.
+      + eapply (SInv_upd _ _ _ _ x _ n); eauto with cache; try reflexivity.
+        intro Hr. cbn. apply (si_resval _ _ _ _ HS n Hn Hr).
+      + eapply (RInv_upd p0 p0 _ _ _ _ _ _ _ _ x _ n);
+          [exact HR|apply (si_ids _ _ _ _ HS)|exact Hn|exact Hx|auto with cache|apply (ri_p _ _ _ _ _ _ _ _ HR)|auto| | | | | ];
+          try (intro; congruence).
+      + apply LInv_upd_same; auto with cache.
+    - apply find_id_none in F. split; unfold InvS, InvR, InvL; unfold upd_node; sred; rewrite ?(upd_absent x _ _ F); auto. }
+  assert (forall m1, In m1 (s_nodes s1) -> (n_id m1 = x /\ n_ref m1 = 0%Z) \/ (n_id m1 <> x /\ In m1 (s_nodes s))) as N1.
+  { subst s1. unfold upd_node. sred. intros m1 Hm1. apply in_upd in Hm1. destruct Hm1 as (m & Hm & ->).
+    destruct (N.eqb_spec (n_id m) x) as [e|ne]; [left; cbn; auto|right; auto]. }
+  assert (CapOk s1) as Hcap1 by (subst s1; unfold CapOk, upd_node in *; sred; exact Hcap).
+  assert (same_misc s s1) as M1 by (subst s1; unfold upd_node; repeat split).
+  assert (Ext s s1) as E1 by (subst s1; apply ref_upd_ext).
+  assert (s_order s1 = s_order s) as Oss1 by (subst s1; unfold upd_node; reflexivity).
+  (* 2. evict *)
+  set (s2 := if s_cacher s1 then lru_evict x s1 else s1).
+  pose proof (inv_s _ _ H1) as HS1. unfold InvS in HS1.
+  pose proof M1 as (i1 & i2 & i3 & i4 & i5 & i6 & i7 & i8).
+  assert (Inv p0 s2 /\ CapOk s2 /\ same_misc s1 s2 /\ Ext s1 s2 /\ Dec s1 s2 /\
+          (forall y, In y (s_order s2) -> In y (s_order s) /\ y <> x)) as (H2 & Hcap2 & M2 & E2 & D2 & O2).
+  { subst s2. destruct (s_cacher s1) eqn:Cc.
+    - destruct (lru_evict_ok _ s1 x H1) as (A & A' & A'' & A3).
+      { intros _ m Hm Hmx. destruct (N1 m Hm) as [[_ e]|[ne _]]; [lia|congruence]. }
+      split; auto. split; auto. split; auto. split; [eapply lru_evict_ext; eauto|].
+      split; [apply lru_evict_dec; apply (si_ids _ _ _ _ HS1)|].
+      intros y Hy. rewrite A3, Oss1 in Hy. apply in_remove_order in Hy. exact Hy.
+    - split; auto. split; auto. split; [apply same_misc_refl|]. split; [apply ExtN_refl|].
+      split; [apply DecN_refl|]. intros y Hy. rewrite Oss1, (Hnc ltac:(congruence)) in Hy. destruct Hy. }
+  pose proof M2 as (j1 & j2 & j3 & j4 & j5 & j6 & j7 & j8).
+  (* 3. callFinalizer *)
+  pose proof (inv_s _ _ H2) as HS2. unfold InvS in HS2.
+  assert (s_closed s2 = true) as Hc2 by congruence.
+  assert (s_forced s2 = true) as Hf2 by congruence.
+  assert (forall m2, In m2 (s_nodes s2) ->
+            (n_id m2 = x /\ (n_ref m2 <= 0)%Z) \/
+            (n_id m2 <> x /\ exists m, In m (s_nodes s) /\ n_id m = n_id m2 /\ (dead m -> dead m2))) as N2.
+  { intros m2 Hm2. destruct (D2 m2 Hm2) as (m1 & Hm1 & i & r & v & d).
+    destruct (N1 m1 Hm1) as [[e r0]|[ne Hm]].
+    - left. split; [congruence|lia].
+    - right. split; [congruence|]. exists m1. split; auto. split; auto. intros (a & b & c). repeat split; auto. lia. }
+  unfold call_finalizer. destruct (find_id x (s_nodes s2)) as [n2|] eqn:F2.
+  - destruct (find_id_some _ _ _ F2) as [Hn2 Hx2].
+    assert (resident n2 = false) as Hres2.
+    { destruct (resident n2) eqn:R; auto. exfalso.
+      assert (In x (s_order s2)) as Hin by (apply (si_ord _ _ _ _ HS2); eauto).
+      apply O2 in Hin. tauto. }
+    set (g := fun n : node => nd_dels [] (nd_val None (n_size n) n)).
+    change (dels_ev (n_dels n2) (final_ev (n_val n2) true (s_log s2))) with (fin_log n2 true (s_log s2)).
+    assert (Inv p0 (set_log (fin_log n2 true (s_log s2)) (set_nodes (upd_id x g (s_nodes s2)) s2))) as H3.
+    { apply (finalize_inplace p0 p0 s2 x n2 g true); auto.
+      - intro m; repeat split.
+      - apply (ri_p _ _ _ _ _ _ _ _ HR).
+      - intro; congruence. }
+    split; [exact H3|]. split; [unfold CapOk, upd_node in *; sred; exact Hcap2|].
+    split; [eapply same_misc_trans; [exact M1|]; eapply same_misc_trans; [exact M2|]; unfold upd_node; repeat split|].
+    split; [eapply Ext_trans; [exact E1|]; eapply Ext_trans; [exact E2|];
+            unfold Ext, upd_node; sred; apply ExtN_upd; [intro m; repeat split|]; intros m _ _; split; auto|].
+    split; [unfold upd_node; sred; exact O2|].
+    unfold upd_node. sred. intros m' Hm'. apply in_upd in Hm'. destruct Hm' as (m2 & Hm2 & ->).
+    destruct (N.eqb_spec (n_id m2) x) as [e|ne].
+    + left. split; [exact e|]. destruct (N2 m2 Hm2) as [[_ r]|[ne _]]; [|congruence]. repeat split; auto.
+    + right. destruct (N2 m2 Hm2) as [[e _]|[_ Q]]; [congruence|]. split; auto.
+  - split; [exact H2|]. split; [exact Hcap2|]. split; [eapply same_misc_trans; [exact M1|exact M2]|].
+    split; [eapply Ext_trans; [exact E1|exact E2]|]. split; [exact O2|].
+    intros m' Hm'. destruct (N2 m' Hm') as [[e _]|Q]; [|right; exact Q].
+    exfalso. apply find_id_none in F2. apply F2. rewrite <- e. now apply in_ids.
+Qed.
+
+Lemma close_loop_false l : forall s,
+  Inv p0 s -> CapOk s -> s_forced s = false ->
+  let s' := fold_left (close_node false) l s in
+  Inv p0 s' /\ CapOk s' /\ same_misc s s' /\ Ext s s' /\
+  (s_cacher s = true -> forall y, In y (s_order s') -> In y (s_order s) /\ ~ In y l) /\
+  (s_cacher s = false -> s' = s).
+Proof.
+  induction l as [|x l IH]; intros s H Hcap Hf; cbn [fold_left].
+  - split; auto. split; auto. split; [apply same_misc_refl|]. split; [apply ExtN_refl|]. split; auto.
+  - destruct (close_node_false_ok s x H Hcap Hf) as (A & B & C & D & O).
+    pose proof C as (j1 & j2 & j3 & j4 & j5 & j6 & j7 & j8).
+    destruct (IH (close_node false s x) A B ltac:(congruence)) as (A' & B' & C' & D' & O' & N').
+    split; auto. split; auto. split; [eapply same_misc_trans; eauto|]. split; [eapply Ext_trans; eauto|]. split.
+    + intros Hca y Hy. destruct (O' ltac:(congruence) y Hy) as [P1 P2]. rewrite (O Hca) in P1.
+      apply in_remove_order in P1. split; [tauto|]. intros [e|e]; [subst; tauto|tauto].
+    + intro Hca. rewrite N' by congruence. unfold close_node. now rewrite Hca.
+Qed.
+
+Lemma close_loop_true l : forall s,
+  Inv p0 s -> CapOk s -> s_forced s = true -> NoCacher s ->
+  (forall n, In n (s_nodes s) -> In (n_id n) l \/ dead n) ->
+  let s' := fold_left (close_node true) l s in
+  Inv p0 s' /\ CapOk s' /\ same_misc s s' /\ Ext s s' /\
+  (forall y, In y (s_order s') -> In y (s_order s) /\ ~ In y l) /\ all_dead (s_nodes s').
+Proof.
+  induction l as [|x l IH]; intros s H Hcap Hf Hnc Hd; cbn [fold_left].
+  - split; auto. split; auto. split; [apply same_misc_refl|]. split; [apply ExtN_refl|]. split; [auto|].
+    intros n Hn. destruct (Hd n Hn) as [[]|Q]. exact Q.
+  - destruct (close_node_true_ok s x H Hcap Hf Hnc) as (A & B & C & D & O & N).
+    pose proof C as (j1 & j2 & j3 & j4 & j5 & j6 & j7 & j8).
+    assert (NoCacher (close_node true s x)) as Hnc'.
+    { intro Hca. rewrite j4 in Hca. specialize (Hnc Hca).
+      destruct (s_order (close_node true s x)) as [|y r] eqn:E; auto.
+      destruct (O y) as [P _]; [try rewrite E; now left|]. rewrite Hnc in P. destruct P. }
+    destruct (IH (close_node true s x) A B ltac:(congruence) Hnc') as (A' & B' & C' & D' & O' & N').
+    { intros m' Hm'. destruct (N m' Hm') as [[e Q]|[ne (m & Hm & i & Q)]]; [right; exact Q|].
+      destruct (Hd m Hm) as [[e|e]|Q']; [congruence|left; congruence|right; auto]. }
+    split; auto. split; auto. split; [eapply same_misc_trans; eauto|]. split; [eapply Ext_trans; eauto|]. split; auto.
+    intros y Hy. destruct (O' y Hy) as [P1 P2]. destruct (O y P1) as [P3 P4].
+    split; auto. intros [e|e]; [subst; tauto|tauto].
+Qed.
+
+Lemma cache_close_ok s force :
+  Rest s -> NoCacher s -> Rest (cache_close force s) /\ Ext s (cache_close force s) /\ NoCacher (cache_close force s).
+Proof.
+  intros (H & Hcap & Hcr) Hnc. unfold cache_close. destruct (s_closed s) eqn:Hc.
+  { split; [split; auto|]. split; [apply ExtN_refl|auto]. }
+  set (s0 := set_closed true force s).
+  assert (Inv p0 s0) as H0 by (apply set_closed_ok; auto).
+  assert (CapOk s0) as Hcap0 by (unfold CapOk in *; exact Hcap).
+  assert (Ext s s0) as E0. { unfold Ext. subst s0. sred. split; [lia|]. split; auto. intros m' Hm' _. exists m'. repeat split; auto. }
+  pose proof (inv_s _ _ H0) as HS0. unfold InvS in HS0.
+  assert (forall s', (forall y, In y (s_order s') -> In y (s_order s0) /\ ~ In y (map n_id (s_nodes s))) -> s_order s' = []) as Oempty.
+  { intros s' P. destruct (s_order s') as [|y r] eqn:E; auto. exfalso.
+    destruct (P y) as [P1 P2]; [now left|]. apply (si_ord _ _ _ _ HS0) in P1. destruct P1 as (n & Hn & e & _).
+    apply P2. rewrite <- e. subst s0. sred. now apply in_map. }
+  destruct force.
+  - destruct (close_loop_true (map n_id (s_nodes s)) s0 H0 Hcap0 eq_refl Hnc) as (A & B & C & D & O & N).
+    { intros n Hn. left. subst s0. sred. now apply in_map. }
+    pose proof C as (j1 & j2 & j3 & j4 & j5 & j6 & j7 & j8).
+    split; [split; [exact A|split; [exact B|]]|split].
+    + intros _. split; [apply Oempty; exact O|]. intros _. exact N.
+    + eapply Ext_trans; eauto.
+    + intros _. apply Oempty. exact O.
+  - destruct (close_loop_false (map n_id (s_nodes s)) s0 H0 Hcap0 eq_refl) as (A & B & C & D & O & N).
+    pose proof C as (j1 & j2 & j3 & j4 & j5 & j6 & j7 & j8).
+    assert (s_order (fold_left (close_node false) (map n_id (s_nodes s)) s0) = []) as Oe.
+    { destruct (s_cacher s0) eqn:Ca.
+      - apply Oempty. apply O. reflexivity.
+      - rewrite (N eq_refl). apply Hnc. exact Ca. }
+    split; [split; [exact A|split; [exact B|]]|split].
+    + intros _. split; [exact Oe|]. intro Q. rewrite j3 in Q. discriminate.
+    + eapply Ext_trans; eauto.
+    + intros _. exact Oe.
+Qed.
+
+(* ---------------------------------------------------------------- the cacher flag never changes;
+   without a cacher nothing is ever linked *)
+
+Definition KK (s s' : state) : Prop :=
+  s_cacher s' = s_cacher s /\ (s_cacher s = false -> s_order s' = s_order s).
+
+Lemma KK_refl s : KK s s. Proof. split; auto. Qed.
+Lemma KK_trans a b c : KK a b -> KK b c -> KK a c.
+Proof. intros [A1 A2] [B1 B2]. split; [congruence|]. intro H. rewrite B2, A2; auto. congruence. Qed.
+Lemma KK_same_lru s s' : same_lru s s' -> KK s s'.
+Proof. intros (_ & _ & o & _ & _ & c & _). split; auto. Qed.
+Lemma KK_of_true s s' : s_cacher s = true -> s_cacher s' = s_cacher s -> KK s s'.
+Proof. intros H E. split; auto. congruence. Qed.
+
+Lemma evict_loop_C ord : forall s s' ev, evict_loop ord s = (s', ev) -> s_cacher s' = s_cacher s.
+Proof.
+  induction ord as [|x ord IH]; intros s s' ev E; cbn [evict_loop] in E.
+  - destruct (Z.of_N (s_cap s) <? s_used s)%Z; inversion E; reflexivity.
+  - destruct (Z.of_N (s_cap s) <? s_used s)%Z; [|inversion E; reflexivity].
+    destruct (find_id x (s_nodes s)); [|inversion E; reflexivity].
+    destruct (evict_loop ord (evict_one x n ord s)) as [s1 ev1] eqn:E1. inversion E; subst.
+    rewrite (IH _ _ _ E1). reflexivity.
+Qed.
+
+Lemma release_all_C ev s : s_cacher (release_all ev s) = s_cacher s.
+Proof. destruct (release_all_same ev s) as (_ & _ & _ & _ & _ & c & _). exact c. Qed.
+Lemma unref_external_C x s : s_cacher (unref_external x s) = s_cacher s.
+Proof. destruct (unref_external_same x s) as (_ & _ & _ & _ & _ & c & _). exact c. Qed.
+
+Lemma lru_promote_C x s : s_cacher (lru_promote x s) = s_cacher s.
+Proof.
+  unfold lru_promote. destruct (find_id x (s_nodes s)); auto. destruct (n_lru n); auto.
+  - destruct (n_size n <=? s_cap s); auto. unfold run_evict_loop.
+    match goal with |- context [evict_loop ?o ?z] => destruct (evict_loop o z) as [s3 ev] eqn:E3 end.
+    rewrite release_all_C, (evict_loop_C _ _ _ _ E3). destruct (n_ref n + 1 <=? 1)%Z; reflexivity.
+  - unfold order_remove. destruct (in_order x (s_order s)); reflexivity.
+Qed.
+Lemma lru_ban_C x s : s_cacher (lru_ban x s) = s_cacher s.
+Proof.
+  unfold lru_ban. destruct (find_id x (s_nodes s)); auto. destruct (n_lru n); auto.
+  rewrite unref_external_C. unfold order_remove. destruct (in_order x (s_order s)); reflexivity.
+Qed.
+Lemma lru_evict_C x s : s_cacher (lru_evict x s) = s_cacher s.
+Proof.
+  unfold lru_evict. destruct (find_id x (s_nodes s)); auto. destruct (n_lru n); auto.
+  rewrite unref_external_C. unfold order_remove. destruct (in_order x (s_order s)); reflexivity.
+Qed.
+Lemma lru_set_capacity_C c s : s_cacher (lru_set_capacity c s) = s_cacher s.
+Proof.
+  unfold lru_set_capacity, run_evict_loop.
+  destruct (evict_loop (s_order (set_cap c s)) (set_cap c s)) as [s1 ev] eqn:E.
+  rewrite release_all_C, (evict_loop_C _ _ _ _ E). reflexivity.
+Qed.
+Lemma evict_ids_C l : forall s, s_cacher (evict_ids l s) = s_cacher s.
+Proof.
+  unfold evict_ids. induction l as [|x l IH]; intro s; cbn; auto. rewrite IH. apply lru_evict_C.
+Qed.
+
+Lemma bucket_get_KK ns key go s : KK s (fst (bucket_get ns key go s)).
+Proof.
+  unfold bucket_get. destruct (find_key ns key (s_nodes s)); [split; reflexivity|]. destruct go; split; reflexivity.
+Qed.
+
+Lemma get_finish_KK x s : KK s (fst (get_finish x s)).
+Proof.
+  unfold get_finish. destruct (s_cacher s) eqn:C.
+  - apply KK_of_true; auto. transitivity (s_cacher (lru_promote x s)); [|apply lru_promote_C].
+    cbv zeta. destruct (find_id x (s_nodes (lru_promote x s))); [destruct (n_val n)|]; reflexivity.
+  - destruct (find_id x (s_nodes s)); [destruct (n_val n)|]; split; cbn; auto.
+Qed.
+
+Lemma cache_get_KK ns key sf s : KK s (fst (cache_get ns key sf s)).
+Proof.
+  unfold cache_get. destruct (s_closed s); [apply KK_refl|].
+  pose proof (bucket_get_KK ns key match sf with SfNil => true | SfRet _ _ => false end s) as B.
+  destruct (bucket_get ns key match sf with SfNil => true | SfRet _ _ => false end s) as [s1 r]. cbn [fst] in B.
+  destruct r as [x|]; [|exact B]. eapply KK_trans; [exact B|].
+  destruct (find_id x (s_nodes s1)); [|split; reflexivity].
+  destruct (n_val n); [apply get_finish_KK|]. destruct sf as [|sz [|]]; cbn [fst].
+  - apply KK_same_lru, unref_internal_same.
+  - eapply KK_trans; [|apply get_finish_KK]. unfold upd_node. split; reflexivity.
+  - eapply KK_trans; [|apply KK_same_lru, unref_internal_same]. unfold upd_node. split; reflexivity.
+Qed.
+
+Lemma handle_release_KK h s : KK s (handle_release h s).
+Proof.
+  unfold handle_release. destruct (find (fun p => fst p =? h) (s_handles s)); [|apply KK_refl].
+  eapply KK_trans; [|apply KK_same_lru, unref_external_same]. split; reflexivity.
+Qed.
+
+Lemma delete_tail_KK x s : KK s (unref_internal x (if s_cacher s then lru_ban x s else s)).
+Proof.
+  destruct (s_cacher s) eqn:C.
+  - apply KK_of_true; auto. destruct (unref_internal_same x (lru_ban x s)) as (_ & _ & _ & _ & _ & c & _).
+    rewrite c. apply lru_ban_C.
+  - apply KK_same_lru, unref_internal_same.
+Qed.
+
+Lemma cache_delete_op_KK ns key wd s : KK s (fst (cache_delete_op ns key wd s)).
+Proof.
+  unfold cache_delete_op. destruct (s_closed s); [apply KK_refl|].
+  set (s0 := if wd then _ else s). assert (KK s s0) as K0 by (subst s0; destruct wd; split; reflexivity).
+  pose proof (bucket_get_KK ns key true s0) as B. destruct (bucket_get ns key true s0) as [s1 r]. cbn [fst] in B.
+  eapply KK_trans; [exact K0|]. eapply KK_trans; [exact B|]. destruct r as [x|]; cbn [fst].
+  - set (s2 := if wd then _ else s1).
+    assert (KK s1 s2) as K2.
+    { subst s2. destruct wd; [|apply KK_refl]. destruct (find_id x (s_nodes s1)); unfold upd_node; split; reflexivity. }
+    eapply KK_trans; [exact K2|apply delete_tail_KK].
+  - destruct wd; split; reflexivity.
+Qed.
+
+Lemma cache_evict_op_KK ns key s : KK s (fst (cache_evict_op ns key s)).
+Proof.
+  unfold cache_evict_op. destruct (s_closed s); [apply KK_refl|].
+  pose proof (bucket_get_KK ns key true s) as B. destruct (bucket_get ns key true s) as [s1 r]. cbn [fst] in B.
+  eapply KK_trans; [exact B|]. destruct r as [x|]; cbn [fst]; [|apply KK_refl].
+  destruct (s_cacher s1) eqn:C.
+  - apply KK_of_true; auto. destruct (unref_internal_same x (lru_evict x s1)) as (_ & _ & _ & _ & _ & c & _).
+    rewrite c. apply lru_evict_C.
+  - apply KK_same_lru, unref_internal_same.
+Qed.
+
+Lemma close_fold_KK force l : forall s, KK s (fold_left (close_node force) l s).
+Proof.
+  induction l as [|x l IH]; intro s; cbn [fold_left]; [apply KK_refl|].
+  eapply KK_trans; [|apply IH]. unfold close_node.
+  set (s1 := if force then upd_node x (nd_ref 0%Z) s else s).
+  assert (KK s s1) as K1 by (subst s1; destruct force; unfold upd_node; split; reflexivity).
+  eapply KK_trans; [exact K1|].
+  set (s2 := if s_cacher s1 then lru_evict x s1 else s1).
+  assert (KK s1 s2) as K2.
+  { subst s2. destruct (s_cacher s1) eqn:C; [|apply KK_refl]. apply KK_of_true; auto. apply lru_evict_C. }
+  eapply KK_trans; [exact K2|]. destruct force; [|apply KK_refl]. apply KK_same_lru, call_finalizer_same.
+Qed.
+
+Lemma step_raw_KK s o : KK s (fst (step_raw s o)).
+Proof.
+  destruct o; cbn [step_raw fst].
+  - apply cache_get_KK.
+  - apply handle_release_KK.
+  - apply cache_delete_op_KK.
+  - apply cache_evict_op_KK.
+  - unfold cache_evict_ns. destruct (s_closed s); [apply KK_refl|]. destruct (s_cacher s) eqn:C; [|apply KK_refl].
+    apply KK_of_true; auto. apply evict_ids_C.
+  - unfold cache_evict_all. destruct (s_closed s); [apply KK_refl|]. destruct (s_cacher s) eqn:C; [|apply KK_refl].
+    apply KK_of_true; auto. apply evict_ids_C.
+  - unfold cache_set_capacity. destruct (s_cacher s) eqn:C; [|apply KK_refl].
+    apply KK_of_true; auto. apply lru_set_capacity_C.
+  - unfold cache_close. destruct (s_closed s); [apply KK_refl|].
+    eapply KK_trans; [|apply close_fold_KK]. split; reflexivity.
+Qed.
+
+Lemma NoCacher_KK s s' : KK s s' -> NoCacher s -> NoCacher s'.
+Proof. intros [A B] H C. rewrite A in C. rewrite B; auto. Qed.
+
+(* ---------------------------------------------------------------- every reachable state *)
+
+Definition Good (s : state) : Prop := Rest s /\ NoCacher s.
+
+Lemma init_good cacher cap : Good (init cacher cap).
+Proof.
+  unfold init. split; [split; [|split]|].
+  - split; unfold InvS, InvR, InvL; sred; auto.
+    + split; cbn.
+      * constructor.
+      * constructor.
+      * intros n [].
+      * constructor.
+      * intro y. split; [intros []|intros (n & [] & _)].
+      * reflexivity.
+      * intros n [].
+    + split; cbn.
+      * intro y. unfold p0. lia.
+      * intros; reflexivity.
+      * intros _ n [].
+      * intros _ n [].
+      * discriminate.
+      * constructor.
+      * intros h y [].
+      * intros h y [].
+      * intros _ n [].
+      * intros _. split; reflexivity.
+      * intros _ n [].
+    + split; cbn.
+      * intros n v [].
+      * intros n m v [].
+      * intro v. unfold cf, count_ev. cbn. lia.
+      * intros v f [].
+      * intros y v sz [].
+      * intro v. unfold ccv, count_ev. cbn. lia.
+      * intro y. unfold ccn, count_ev. cbn. lia.
+      * intros _ n [].
+      * intros y v sz [].
+      * intros n d [].
+      * intros n [].
+      * intros n m d [].
+      * intros n d [].
+      * intro d. unfold cdr, count_ev. cbn. lia.
+      * intros d [].
+      * intros d Hd. lia.
+      * intros d y [].
+  - unfold CapOk. cbn. lia.
+  - intro H. discriminate.
+  - intro H. reflexivity.
+Qed.
+
+Lemma step_raw_fst s o : fst (step s o) = fst (step_raw s o).
+Proof. unfold step. destruct (step_raw s o). reflexivity. Qed.
+
+Lemma step_good s o : Good s -> Good (fst (step s o)) /\ Ext s (fst (step s o)).
+Proof.
+  intros [R NC]. rewrite step_raw_fst.
+  assert (NoCacher (fst (step_raw s o))) as NC' by (eapply NoCacher_KK; [apply step_raw_KK|exact NC]).
+  destruct o; cbn [step_raw fst] in *.
+  - destruct (cache_get_ok s ns key sf R) as (A & B & _). split; [split|]; auto.
+  - destruct (handle_release_ok s h R) as (A & B & _). split; [split|]; auto.
+  - destruct (cache_delete_op_ok s ns key with_del R) as (A & B). split; [split|]; auto.
+  - destruct (cache_evict_op_ok s ns key R) as (A & B). split; [split|]; auto.
+  - destruct (cache_evict_ns_ok s ns R) as (A & B). split; [split|]; auto.
+  - destruct (cache_evict_all_ok s R) as (A & B). split; [split|]; auto.
+  - destruct (cache_set_capacity_ok s c R) as (A & B). split; [split|]; auto.
+  - destruct (cache_close_ok s force R NC) as (A & B & C). split; [split|]; auto.
+Qed.
+
+Lemma run_good ops : forall s, Good s -> Good (run s ops) /\ Ext s (run s ops).
+Proof.
+  unfold run. induction ops as [|o ops IH]; intros s G; cbn [fold_left].
+  - split; auto. apply ExtN_refl.
+  - destruct (step_good s o G) as [G1 E1]. destruct (IH _ G1) as [G2 E2]. split; auto. eapply Ext_trans; eauto.
+Qed.
+
+Definition reachable (s : state) : Prop := exists cacher cap ops, s = run (init cacher cap) ops.
+
+Lemma reachable_good s : reachable s -> Good s.
+Proof. intros (c & cap & ops & ->). apply run_good, init_good. Qed.
+
+Lemma reachable_step s o : reachable s -> reachable (fst (step s o)).
+Proof.
+  intros (c & cap & ops & ->). exists c, cap, (ops ++ [o]). unfold run. rewrite fold_left_app. reflexivity.
+Qed.
+
+Lemma step_raw_panic s o : snd (step_raw s o) = RPanic -> s_panic (fst (step_raw s o)) = true.
+Proof.
+  destruct o; cbn [step_raw fst snd]; try discriminate.
+  - unfold cache_get. destruct (s_closed s); [discriminate|].
+    destruct (bucket_get ns key match sf with SfNil => true | SfRet _ _ => false end s) as [s1 [x|]]; [|discriminate].
+    assert (forall z, snd (get_finish x z) = RPanic -> s_panic (fst (get_finish x z)) = true) as GF.
+    { intros z. unfold get_finish. cbv zeta.
+      destruct (find_id x (s_nodes (if s_cacher z then lru_promote x z else z))); [destruct (n_val n)|]; cbn; auto; discriminate. }
+    destruct (find_id x (s_nodes s1)); [|reflexivity].
+    destruct (n_val n); [apply GF|]. destruct sf as [|sz [|]]; cbn [snd]; try discriminate. apply GF.
+  - unfold cache_delete_op. destruct (s_closed s); [discriminate|].
+    destruct (bucket_get ns key true (if with_del then set_next_did (s_next_did s + 1) s else s)) as [s1 [x|]]; discriminate.
+  - unfold cache_evict_op. destruct (s_closed s); [discriminate|].
+    destruct (bucket_get ns key true s) as [s1 [x|]]; discriminate.
+Qed.
+
+Lemma step_no_panic s o : Good s -> snd (step s o) <> RPanic /\ s_panic (fst (step s o)) = false.
+Proof.
+  intro G. destruct (step_good s o G) as [[(H & _) _] _].
+  pose proof (inv_np _ _ H) as P. split; auto.
+  rewrite step_raw_fst in P. unfold step. pose proof (step_raw_panic s o) as Q.
+  destruct (step_raw s o) as [s' r]. cbn [fst snd] in *. rewrite P. intro e. specialize (Q e). congruence.
+Qed.
